@@ -57,7 +57,7 @@ Oracle, per datagram: the model (`Heartbeat.dispatch`, run datagram by datagram 
 model expects for a datagram sent so far that has not been answered yet (a reply may be late — handlers run on their own
 goroutines — but never early, never repeated, never different), and at the end every expected reply has arrived: so each datagram
 gets at most one reply and exactly the model's.  Outputs recorded before `per=` existed fall back to the per-run count. -/
-def udpBufferSize : Nat := 2048
+def udpBufferSize : Nat := UdpServer.defaultBufferSize
 
 def handleUdpSrv (payloads : String) (out : List String) : Verdict :=
   let lives := out.filter fun t => t == "alive" || t == "dead"
